@@ -5,6 +5,7 @@ import Pyunicorn.Lemmas.NetCore
 import Pyunicorn.Lemmas.NetCoreFull
 import Pyunicorn.Lemmas.NetBetwPaths
 import Pyunicorn.Lemmas.NetBetwAsm
+import Pyunicorn.Lemmas.NetBetwKernel
 import Pyunicorn.Lemmas.NetRW
 import Pyunicorn.Generated.ArithC03
 /-!
@@ -921,6 +922,61 @@ theorem nsiBetweenness_eq_def_partial (n : Nat) (a : Adj) (w : Nat → Rat) (isS
     nsiBetweenness n a w isSrc targets = nsiBetweennessDef n a w (dist n a) isSrc targets :=
   nsiBetweenness_assembly n a w isSrc targets (dist n a) h
 
+/-! #### round 5: the kernel proof in full -/
+
+/-- **forward phase of `_nsi_betweenness`** (BFS from target `j` over `flat_neighbors`, recording
+`distances_to_j`, the flat predecessor array with its `offsets` stride and the weighted multiplicities):
+on the arrays the wrapper hands over, for every undirected network, every weight vector and every target
+`j < N`, the loop `while qi < queue_len` (fuel `N`) ends with — the queue = every node reachable from `j`,
+once, in the order of non-decreasing true shortest-path distance, `j` first; `distances_to_j` = the BFS
+distance of `path_lengths` (`2N` where unreachable); `multiplicity_to_j[v] = σ_jv`, the weighted number of
+shortest paths (= sum over enumerated paths by `pathCount_eq_enumeration`); and
+`flat_predecessors[offsets[l] : offsets[l] + n_predecessors[l]]` = the predecessors of `l` of the
+definition, in queue order.  Symmetry of `A` is what keeps the writes to `flat_predecessors` inside the
+slice of `l` (a node has at most `k[l]` predecessors). -/
+theorem nsiBetweenness_forward_phase (n : Nat) (a : Adj) (hsym : ∀ x y, a x y = a y x) (w : Nat → Rat)
+    (j : Nat) (hj : j < n) :
+    FwdOK n a w j (offsetsOf (degArr n a))
+      (forward (offsetsOf (degArr n a)) (degArr n a) (flatArr n a) w n 0
+        (fwdInit n w (flatArr n a).length j)) :=
+  forward_fwdOK n a hsym w j hj
+
+/-- **backward sweep of `_nsi_betweenness`**: run over the reversed queue of any state satisfying the
+forward phase's postcondition, the loop leaves in `betweenness_to_j` a solution of Brandes' accumulation
+recursion `β(l) = e(l) + Σ_{l' : l predecessor of l'} β(l')·(w(l')/σ(l'))·σ(l)`, `β(j) = 0`, `β = e` on
+unreachable nodes, and in `excess_to_j` the initial `is_source·w` (0 at `j`). -/
+theorem nsiBetweenness_backward_sweep (n : Nat) (a : Adj) (w : Nat → Rat) (isSrc : List Bool) (j : Nat)
+    (hj : j < n) (offsets : List Nat) (s : Fwd) (h : FwdOK n a w j offsets s) :
+    let be := s.queue.reverse.foldl (back offsets w j s) (excessInit n w isSrc, excessInit n w isSrc)
+    BrandesSol n a w isSrc j (fun l => be.1.getD l 0) ∧
+      (∀ l, l < n → be.2.getD l 0 = if l = j then 0 else excess w isSrc l) :=
+  back_brandesSol n a w isSrc j hj offsets s h
+
+/-- **the accumulation recursion has the pair-dependency sum as its only solution** (positive node
+weights): `β(l) − e(l) = Σ_{s source, s ≠ l, reachable} w_s σ_js(l)/σ_js` for every `l ≠ j`.  Rests on the
+first-link decomposition `σ_js(l) = [s = l]σ_jl + Σ_{l' successor of l} σ_jl (w_l'/σ_jl') σ_js(l')`
+(`thru_first_link`). -/
+theorem brandes_recursion_unique (n : Nat) (a : Adj) (w : Nat → Rat) (isSrc : List Bool) (j : Nat)
+    (hj : j < n) (hw : ∀ v, v < n → 0 < w v) (β : Nat → Rat) (hβ : BrandesSol n a w isSrc j β) :
+    ∀ l, l < n → l ≠ j → β l - excess w isSrc l = contribDef n a w (dist n a) isSrc j l :=
+  brandesSol_eq_contribDef n a w isSrc j hj hw (DistL.dist_self n a j hj)
+    (fun l hl h => dist_zero_eq n a j l hj hl h)
+    (fun l k hl h => dist_succ_pred n a j l k hj hl h)
+    (fun l k hl h => DistL.dist_lt n a j l k hj hl h) β hβ
+
+/-- **kernel `_nsi_betweenness` (with its wrapper) = the published pair-dependency definition**, with no
+per-case hypothesis: for every undirected network (symmetric `A`; loops allowed or not), positive node
+weights, every source mask and every list of targets `< N` (any order, repetitions counted as the kernel
+counts them), `Network._nsi_betweenness` returns
+`b_v = (1/w_v) Σ_{t ∈ targets} Σ_{s source, s ≠ v ≠ t} w_t w_s σ_ts(v)/σ_ts`
+(unit weights: interregional betweenness; all nodes as sources and targets: twice the shortest-path
+betweenness).  This closes `nsiBetweenness_eq_def_partial`. -/
+theorem nsiBetweenness_eq_def (n : Nat) (a : Adj) (hsym : ∀ x y, a x y = a y x) (w : Nat → Rat)
+    (hw : ∀ v, v < n → 0 < w v) (isSrc : List Bool) (targets : List Nat)
+    (ht : ∀ j, j ∈ targets → j < n) :
+    nsiBetweenness n a w isSrc targets = nsiBetweennessDef n a w (dist n a) isSrc targets :=
+  nsiBetweenness_eq_def_full n a hsym w hw isSrc targets ht
+
 end Betweenness
 
 /-! ### translator tie: the size expressions of the model are the ones in the current source
@@ -1011,6 +1067,26 @@ example : NetBetw.nsiBetweenness 4 c4 w4 [true, true, true, true] [0, 3]
 example : NetBetw.sweepDiff 4 c4 w4 [true, true, true, true] 0 1
     = NetBetw.contribDef 4 c4 w4 (dist 4 c4) [true, true, true, true] 0 1 := by decide +kernel
 example : NetBetw.nsiBetweenness 4 c4 w4 [true, true, true, true] [0, 3] ≠ [0, 0, 0, 0] := by decide +kernel
+/-- the hypotheses of `nsiBetweenness_eq_def` hold for the weighted 4-cycle (symmetric, positive weights,
+targets `< 4`), so the theorem applies to an instance where both sides are non-zero -/
+theorem c4_symm : ∀ x y, c4 x y = c4 y x := by
+  intro x y
+  simp only [c4, List.mem_cons, Prod.mk.injEq, List.not_mem_nil, or_false, decide_eq_decide]
+  omega
+theorem w4_pos : ∀ v, v < 4 → 0 < w4 v := by
+  intro v hv
+  have : v = 0 ∨ v = 1 ∨ v = 2 ∨ v = 3 := by omega
+  rcases this with rfl | rfl | rfl | rfl <;> decide +kernel
+example : NetBetw.nsiBetweenness 4 c4 w4 [true, false, true, true] [3, 0, 3]
+    = NetBetw.nsiBetweennessDef 4 c4 w4 (dist 4 c4) [true, false, true, true] [3, 0, 3] :=
+  nsiBetweenness_eq_def 4 c4 c4_symm w4 w4_pos _ _ (by decide)
+example : NetBetw.FwdOK 4 c4 w4 0 (NetBetw.offsetsOf (NetBetw.degArr 4 c4))
+    (NetBetw.forward (NetBetw.offsetsOf (NetBetw.degArr 4 c4)) (NetBetw.degArr 4 c4) (NetBetw.flatArr 4 c4)
+      w4 4 0 (NetBetw.fwdInit 4 w4 (NetBetw.flatArr 4 c4).length 0)) :=
+  nsiBetweenness_forward_phase 4 c4 c4_symm w4 0 (by decide)
+example : (NetBetw.forward (NetBetw.offsetsOf (NetBetw.degArr 4 c4)) (NetBetw.degArr 4 c4)
+      (NetBetw.flatArr 4 c4) w4 4 0 (NetBetw.fwdInit 4 w4 (NetBetw.flatArr 4 c4).length 0)).queue
+    = [0, 1, 2, 3] := by decide +kernel
 example : avgPathLengthU 5 (dist 5 p4iso) = some (5 / 3) ∧ diameter 5 (dist 5 p4iso) = 3 := by decide +kernel
 
 /-! ## Round 4
